@@ -24,7 +24,8 @@ ASSUMPTIONS = ["only directories whose names are valid package names, task direc
                "through one",
                "gc is invoked from the project root (cwd variation belongs to C17)"]
 ESSENTIAL = ["nested_lookalike", "recorded_same_name_other_pkg", "depth>=2", "row_without_dir", "dry_run", "verbose",
-             "root_package_exp", "file_lookalike", "nothing_to_delete", "name_with_dash_or_underscore"]
+             "root_package_exp", "file_lookalike", "nothing_to_delete", "name_with_dash_or_underscore",
+             "name_with_trailing_newline"]
 TECHNIQUE = "property-based testing (Hypothesis) of the real CLI on generated cond-out trees; independently computed deletion set + tree snapshots as oracle"
 LEVEL_TEXT = "Randomised search over cond-out trees and index contents; exact-set oracle in both directions (deleted == expected, everything else byte-identical)."
 LEVEL_NOTE = "Trusted: the deletion-set model in this file; vf/trees.py snapshots."
@@ -58,6 +59,8 @@ def _strategy(draw, tier):
     flags = draw(st.sampled_from([[], [], ["-n"], ["-v"], ["-n", "-v"], ["--dry-run"], ["--verbose"]]))
     return {"entries": entries, "rows_extra": rows_extra, "flags": flags,
             "stray_files": draw(st.booleans()),
+            # directories whose names only LOOK like task output directories: a trailing newline is not part of any task name
+            "newline_dirs": draw(st.sampled_from([False, False, True])),
             # manual additions: symbolic links placed in cond-out by hand
             "links": draw(st.sampled_from([[], [], [], ["outside"], ["alias"], ["tasklike"], ["outside", "alias", "tasklike"]]))}
 
@@ -161,6 +164,12 @@ def build(root, case):
         with open(os.path.join(root, "x.task.5"), "w") as f:
             f.write("a file outside cond-out")
         os.makedirs(os.path.join(root, "src", "y.task.9"), exist_ok=True)
+    if case.get("newline_dirs"):
+        labels.add("name_with_trailing_newline")
+        for nm in ("keep.task.5\n", "held.task\n"):
+            os.makedirs(os.path.join(out, nm), exist_ok=True)
+            with open(os.path.join(out, nm, "data.txt"), "w") as f:
+                f.write("not a task output")
     for kind in case.get("links", []):
         labels.add("symlink_in_cond_out")
         if kind == "outside":
